@@ -145,8 +145,20 @@ func (h *harness) crashcheck(k int) (event, error) {
 		// while the new one is being written the old one still exists, a combination this copy (old one
 		// already removed) cannot show — that crash window is covered by the Lean theorem
 		// `saveState_crash_safe`; here only index files and converter cache files are cut
+		// … and only a file that is still UNDER CONSTRUCTION from the service's point of view, i.e. written by a
+		// job whose completion has not been delivered (not yet in the served list): once a merged file is
+		// published its inputs are deleted, and a disk "inputs deleted + output cut" is not a prefix of any
+		// operation sequence (Pk/Props/C12Idx.lean, crash_cut_delete_phase_counterexample / crash_cut_newest_only)
 		if newest != nil && newest.Dir == "index" {
-			cands = append(cands, *newest)
+			published := false
+			for _, fn := range live.Indexes {
+				if filepath.Base(fn) == newest.Name {
+					published = true
+				}
+			}
+			if !published {
+				cands = append(cands, *newest)
+			}
 		}
 		if len(cands) != 0 {
 			f := cands[0]
